@@ -729,8 +729,15 @@ func runC10(e *Engine, r *Report, tier string) {
 				why := "no dominating allowance check-and-decrement"
 				allCalls(cs.Caller, func(c ssa.CallInstruction) {
 					f := c.Common().StaticCallee()
-					if f == nil || !isFx(f) || !Dominates(c, cs.Call) || !e.allowanceDecrementShape(f) {
+					if f == nil || !isFx(f) || !e.allowanceDecrementShape(f) {
 						return
+					}
+					// the decrement either precedes the transfer on every path, or follows it on every success path
+					// (both run inside one native action, so a failing decrement still undoes the transfer)
+					if !Dominates(c, cs.Call) {
+						if cs.Call.Parent() != c.Parent() || MustPassThrough(cs.Caller, cs.Call, func(i ssa.Instruction) bool { return i == ssa.Instruction(c) }) != nil {
+							return
+						}
 					}
 					// args: owner SameExpr a ; spender roots at Caller ; amount SameExpr shares
 					hasOwner, hasSpender, hasAmt := false, false, false
